@@ -2259,6 +2259,123 @@ def eval_unpack(ctx):
                               cls=None, conforms=True, stream="unpack-call")
 
 
+# ------------------------------------------------------------------ nested scopes inside each function kind: implementation only
+NEST_PRE = "from typing import Iterator, AsyncIterator, Any\n"
+NEST_PRELUDES = [
+    "",
+    "def inner():\n    yield 1",
+    "def inner() -> int:\n    return 2",
+    "async def inner():\n    yield 1",
+    "async def inner() -> AsyncIterator[int]:\n    for i in range(x):\n        yield i",
+    "async def inner() -> int:\n    return 2",
+    "async def inner():\n    await other()\n    return 2",
+    "def a():\n    async def b():\n        yield 1\n    return b",
+    "async def a():\n    def b():\n        yield 1\n    return b",
+    "lam = lambda: 1",
+    "lam = lambda: (yield)",
+    "lam = lambda: (yield from [1])",
+    "class K:\n    def m(self):\n        yield 1\n    async def am(self):\n        yield 2\n    async def co(self):\n        return 3",
+    "xs = [i for i in range(3)]",
+    "g = (i for i in range(3))",
+    "d = {i: (lambda: i) for i in range(3)}",
+    "if x:\n    async def inner():\n        yield 1",
+    "for _ in range(2):\n    async def inner():\n        yield 1",
+    "try:\n    async def inner():\n        yield 1\nfinally:\n    pass",
+    "with open('f') as fh:\n    def inner():\n        yield 1",
+]
+NEST_KINDS = {
+    "plain": ("def %s(x: int) -> int:", "return 1"),
+    "coro": ("async def %s(x: int) -> int:", "return 1"),
+    "gen": ("def %s(x: int) -> Iterator[int]:", "yield 1"),
+    "agen": ("async def %s(x: int) -> AsyncIterator[int]:", "yield 1"),
+    "coro_await": ("async def %s(x: int) -> int:", "return await other()"),
+}
+
+
+def nest_defs():
+    out, k = [], 0
+    ind = lambda t: "\n".join("    " + l for l in t.split("\n"))
+    for kind, (head, tail) in NEST_KINDS.items():
+        for pre in NEST_PRELUDES:
+            n = "n%d" % k
+            k += 1
+            out.append((n, kind, pre, head % n + "\n" + (ind(pre) + "\n" if pre else "") + "    " + tail))
+    return out
+
+
+def eval_nested_scopes(ctx):
+    """The kind of a function (plain / coroutine / generator / async generator) is decided by its OWN body: a yield / await /
+    return inside a nested def, async def, lambda, class body or comprehension belongs to that scope (functions.py
+    IsGeneratorVisitor; the function object's kind is the compiler's co_flags). Every outer kind is given every nested-scope
+    prelude; compared: the def-node signature against the function-object signature, both against the same header without the
+    prelude, and the verdicts and values of the same calls next to the nested def, in the defining module and from an importer."""
+    from pyanalyze.value import CallableValue
+    if ctx.scratch not in sys.path:
+        sys.path.insert(0, ctx.scratch)
+    defs = nest_defs()
+    ind = lambda t: "\n".join("    " + l for l in t.split("\n"))
+    _MODCOUNT[0] += 1
+    name = "c13nest_%d_%d" % (os.getpid(), _MODCOUNT[0])
+    other = "async def other() -> int:\n    return 0\n"
+    with open(os.path.join(ctx.scratch, name + ".py"), "w") as f:
+        f.write(NEST_PRE + other + "\n".join(d[3] for d in defs) + "\n")
+    importlib.invalidate_caches()
+    H = importlib.import_module(name)
+    checker = pya.make_checker()
+    callsrc = lambda pre: "\n".join("    %s%s(%s)" % (a, pre + n, c) for n, _, _, _ in defs
+                                    for a, c in (("", "1"), ("", "'a'"), ("await ", "1")))
+    nested = NEST_PRE + other + "async def outer():\n" + "\n".join(ind(d[3]) + "\n    " + d[0] for d in defs) + "\n" + callsrc("") + "\n"
+    own = NEST_PRE + other + "\n".join(d[3] for d in defs) + "\nasync def run():\n" + callsrc("") + "\n"
+    imp = "import %s as H\nasync def run():\n" % name + callsrc("H.") + "\n"
+
+    def collect(src):
+        fails, tree, _ = pya.check_source(src, annotate=True)
+        codes = {}
+        for f in fails:
+            codes.setdefault(f["lineno"], set()).add(f["code"])
+        out, sigs = {}, {}
+        for fn in tree.body:
+            if isinstance(fn, ast.AsyncFunctionDef) and fn.name in ("run", "outer"):
+                for n in fn.body:
+                    if isinstance(n, ast.Expr) and isinstance(n.value, (ast.Call, ast.Await)):
+                        v = getattr(n.value, "inferred_value", None)
+                        out[ast.unparse(n.value).replace("H.", "")] = (tuple(sorted(codes.get(n.lineno, ()))), _strip_any(_strip_tv(v)))
+                    elif isinstance(n, ast.Expr) and isinstance(n.value, ast.Name):
+                        v = getattr(n.value, "inferred_value", None)
+                        sigs[n.value.id] = _strip_any(_strip_tv(v.signature)) if isinstance(v, CallableValue) else "INVALID:%r" % (v,)
+        return out, sigs
+
+    (a, asig), (b, _), (c, _) = collect(nested), collect(own), collect(imp)
+    rsig = {}
+    for n, kind, pre, text in defs:
+        try:
+            rsig[n] = _strip_any(_strip_tv(checker.arg_spec_cache.get_argspec(getattr(H, n))))
+        except Exception as e:
+            rsig[n] = "EXC:%s" % type(e).__name__
+    base = {kind: n for n, kind, pre, _ in defs if pre == ""}
+
+    src = {d[0]: d[3] for d in defs}
+    for n, kind, pre, text in defs:
+        ctx.count(1, nested_scopes=1)
+        ctx.corr("nested-scopes")
+        if asig.get(n) != rsig[n]:
+            ctx.candidate({"def": text}, "the signature of the def node and of the function object differ for\n%s\n  def node: %s\n  object:   %s"
+                          % (text, asig.get(n), rsig[n]), cls=None, conforms=True, stream="nested-sig")
+        b0 = base[kind]
+        for view, sg in (("def node", asig), ("function object", rsig)):
+            if sg.get(n) != sg.get(b0):
+                ctx.candidate({"def": text}, "a nested scope changes the %s signature of the enclosing %s function:\n%s\n  with:    %s\n  without: %s"
+                              % (view, kind, text, sg.get(n), sg.get(b0)), cls=None, conforms=True, stream="nested-kind")
+    for k in b:
+        ctx.count(1, nested_scope_calls=1)
+        views = {"nested def": a.get(k), "own module": b[k], "importer": c.get(k)}
+        if len({repr(v) for v in views.values()}) > 1:
+            fn = k.replace("await ", "").split("(")[0]
+            ctx.candidate({"call": k, "def": src.get(fn)},
+                          "the call %s is judged differently: %s" % (k, "; ".join("%s: %s" % kv for kv in views.items())),
+                          cls=None, conforms=True, stream="nested-call")
+
+
 def _strip_any(x):
     """Any sources are not compared (an AnyValue keeps only its class name)."""
     if isinstance(x, tuple):
@@ -2421,6 +2538,7 @@ def run(ctx, with_model=True):
     eval_methods(ctx)
     eval_decorated(ctx)
     eval_unpack(ctx)
+    eval_nested_scopes(ctx)
 
 
 def run_impl_only(ctx):
